@@ -9,5 +9,7 @@
 #[macro_use]
 pub mod common;
 pub mod c10_vclock;
+pub mod t_orswot;
+pub mod c11_aggregates;
 
 include!(concat!(env!("VH_GEN_DIR"), "/dispatch.rs"));
